@@ -762,6 +762,180 @@ def exit_free_cycle(b, h, body):
     return None
 
 
+def stutter_trip(b, h, body):
+    """Is there a path from the loop head back to the head on which nothing is written that any branch inside the loop
+    depends on?  After such a trip every test in the loop sees the values it saw before, so (the code being deterministic)
+    the same path is taken again, for ever.  D = the locals that the operands of the loop's `switch` terminators depend on,
+    through definitions inside the loop (assignments, call results, references); a block *writes* D if it assigns a place
+    rooted at a local of D, stores a call result there, or hands a `&mut` to one of them to a call.  -> True if such a
+    trip exists"""
+    from .mir import op_place
+    defs = {}
+    for x in body:
+        blk = b.blocks[x]
+        for st in blk.stmts:
+            if st[0] == "A" and not st[1][1]:
+                defs.setdefault(st[1][0], []).append(("s", st[2]))
+        t = blk.term
+        if t.kind == "call" and not t.dest[1]:
+            defs.setdefault(t.dest[0], []).append(("c", t))
+    work = []
+    n_sw = 0
+    for x in body:
+        t = b.blocks[x].term
+        if t.kind == "switch":
+            n_sw += 1
+            p = op_place(t.d[1])
+            if p is not None:
+                work.append(p[0])
+    if not n_sw:
+        return False
+    dep = set()
+
+    def roots(v, out):
+        # every place mentioned in an rvalue, whatever its form (use / ref / disc / len / bin / agg / cast ..): `[local, [proj..]]`
+        if isinstance(v, list):
+            if len(v) == 2 and isinstance(v[0], int) and not isinstance(v[0], bool) and isinstance(v[1], list):
+                out.append(v[0])
+                for e in v[1]:
+                    if isinstance(e, list) and e and e[0] == "i" and len(e) > 1 and isinstance(e[1], int):
+                        out.append(e[1])
+            else:
+                for y in v:
+                    roots(y, out)
+    while work:
+        l = work.pop()
+        if l in dep:
+            continue
+        dep.add(l)
+        for kind, d in defs.get(l, []):
+            rs = []
+            if kind == "s":
+                roots(d, rs)
+            else:
+                roots(list(d.args), rs)
+            work.extend(rs)
+    # a write is an assignment to a *variable* (a local the source names, or something behind a pointer / in a field) --
+    # the compiler's temporaries are recomputed from the variables on every trip and carry no state of their own
+    # ... more precisely, of a *loop-carried* variable: one whose value at the loop head can be read by the trip before the
+    # trip assigns it (live at the head).  `let a = table[i];` at the top of the body is recomputed like a temporary.
+    blk_use_first = {}
+    blk_def = {}
+    for x in body:
+        blk = b.blocks[x]
+        used, defined = set(), set()
+        for st in blk.stmts:
+            if st[0] == "A":
+                rs = []
+                roots(st[2], rs)
+                if st[1][1]:
+                    rs.append(st[1][0])          # a store through / into part of it reads the rest
+                used |= {r for r in rs if r not in defined}
+                if not st[1][1]:
+                    defined.add(st[1][0])
+        t = blk.term
+        rs = []
+        if t.kind == "call":
+            roots(list(t.args), rs)
+        elif t.kind == "switch":
+            roots(t.d[1], rs)
+        elif t.kind == "assert":
+            roots(t.d[4] if len(t.d) > 4 else [], rs)
+            roots(t.d[1], rs)
+        used |= {r for r in rs if r not in defined}
+        if t.kind == "call" and not t.dest[1]:
+            defined.add(t.dest[0])
+        blk_use_first[x] = used
+        blk_def[x] = defined
+
+    def live_at_head(l):
+        seen = set()
+        st = [h]
+        while st:
+            x = st.pop()
+            if x in seen:
+                continue
+            seen.add(x)
+            if l in blk_use_first[x]:
+                return True
+            if l in blk_def[x]:
+                continue
+            st.extend(s2 for s2 in b.blocks[x].term.targets if s2 in body)
+        return False
+    carried = {l for l in dep if live_at_head(l)}
+
+    def is_var(place):
+        return bool(place[1]) or place[0] in carried
+    writes = set()
+    for x in body:
+        blk = b.blocks[x]
+        for st in blk.stmts:
+            if st[0] == "A" and st[1][0] in dep and is_var(st[1]):
+                writes.add(x)
+        t = blk.term
+        if t.kind == "call":
+            if t.dest[0] in dep and is_var(t.dest):
+                writes.add(x)
+            for a, aty in zip(t.args, (t.d.get("atys") or [])):
+                p = op_place(a)
+                if p is None or not (aty.startswith("&mut") or aty.startswith("*mut")):
+                    continue
+                tgt = {p[0]}
+                # `f(&mut v)`: the argument is a temporary holding the reference; what it points into is what is written
+                for _ in range(3):
+                    nxt = set()
+                    for l in tgt:
+                        for (dbb, dj, rv) in b.defs().get(l, []):
+                            if not hasattr(rv, "callee") and rv[0] == "ref" and isinstance(rv[2], list):
+                                nxt.add(rv[2][0])
+                            elif not hasattr(rv, "callee") and rv[0] == "use" and op_place(rv[1]) is not None:
+                                nxt.add(op_place(rv[1])[0])
+                    if not nxt - tgt:
+                        break
+                    tgt |= nxt
+                if tgt & dep:
+                    writes.add(x)
+    if h in writes:
+        return False
+
+    # path search, with one piece of path sensitivity: `x = None` / `x = Err(..)` followed by `x?` leaves the loop, it does not
+    # continue (the arm of a match that produces the absence ends the iteration)
+    def const_fail(x):
+        """locals assigned a payload-free failure variant in block x"""
+        out = set()
+        for st_ in b.blocks[x].stmts:
+            if st_[0] == "A" and not st_[1][1] and st_[2][0] == "agg" and st_[2][1][0] == "adt":
+                adt, var = st_[2][1][1], st_[2][1][2]
+                if (adt == "core::option::Option" and var == 0) or (adt == "core::result::Result" and var == 1):
+                    out.add(st_[1][0])
+        return out
+    seen = set()
+    st = [(s, frozenset()) for s in b.blocks[h].term.targets if s in body and s not in writes]
+    while st:
+        x, fails = st.pop()
+        if x == h:
+            return True
+        if (x, fails) in seen:
+            continue
+        seen.add((x, fails))
+        blk = b.blocks[x]
+        fails = set(fails) | const_fail(x)
+        t = blk.term
+        targets = list(t.targets)
+        if t.kind == "call" and t.callee.endswith("as core::ops::try_trait::Try>::branch") and t.args and op_place(t.args[0]) is not None \
+                and op_place(t.args[0])[0] in fails and not t.dest[1]:
+            fails.add(("br", t.dest[0]))
+        if t.kind == "switch":
+            # switch on the discriminant of a `branch` result known to be Break: only the Break arm (value 1) is feasible
+            p = op_place(t.d[1])
+            if p is not None:
+                for st_ in blk.stmts:
+                    if st_[0] == "A" and st_[1] == [p[0], []] and st_[2][0] == "disc" and ("br", st_[2][1][0]) in fails:
+                        targets = [tg for v, tg in t.d[2] if str(v) == "1"]
+        st.extend((s, frozenset(fails)) for s in targets if s in body and s not in writes)
+    return False
+
+
 def collect_loops(facts, crates, skip_file_re=None):
     """-> (sites, n_functions): one census 'site' per natural loop"""
     out = []
@@ -792,4 +966,10 @@ def collect_loops(facts, crates, skip_file_re=None):
                                      "a path from the loop head back to the head passes no exit test (a `continue` that skips the "
                                      "loop's exit condition): if the state keeps selecting that path the loop never ends"),
                                 key=(b.path, "loop-exit", h), iv=None, loop_class="exit-free-trip"))
+                stut = stutter_trip(b, h, body)
+                out.append(dict(kind="loop:stutter-trip", body=b, bb=h, line=line or b.lo, ok=not stut,
+                                why=("every trip writes something a branch in the loop depends on" if not stut else
+                                     "a path from the loop head back to the head writes nothing that any branch in the loop depends "
+                                     "on (a `continue` before the step, a step left out of one arm): the next trip is identical"),
+                                key=(b.path, "loop-stutter", h), iv=None, loop_class="stutter-trip"))
     return out, nfn
